@@ -270,14 +270,14 @@ pub fn gen_case(seed: u64, idx: u64) -> Case {
         1 => g.below(1000),
         _ => g.next() >> 8,
     };
-    let tries = *g.pick(&[1u64, 2, 3, 5, 8, 12, 24]);
+    let tries = *g.pick(&[0u64, 1, 1, 2, 3, 5, 8, 12, 24]);
     // per-schedule part
     let mut s = Stream::new(keyed(seed, &[idx, 99]), "c16-schedule");
     let pool = *s.pick(&[1usize, 2, 2, 3, 4, 4, 6, 8]);
     let strategy = crate::c13::pick_strategy(&mut s);
     let nside = s.below(3) as usize;
     let side = (0..nside)
-        .map(|_| (0..1 + s.below(3)).map(|_| (s.chance(1, 2), start + s.below(tries))).collect())
+        .map(|_| (0..1 + s.below(3)).map(|_| (s.chance(1, 2), start + s.below(tries.max(1)))).collect())
         .collect();
     Case { mn, start, tries, pool, strategy, sched_seed: keyed(seed, &[idx, 5]), side, peg }
 }
@@ -354,6 +354,21 @@ pub fn oracle(case: &Case, obs: &CaseObs, stats: &mut Counters) -> Vec<Violation
     // sequential reference, outside any simulation
     let seq: Vec<(u64, Result<SparseMatrix, String>)> = (case.start..case.start + case.tries).map(|s| (s, case.mn.run(s).map_err(|e| e.to_string()))).collect();
     let n_ok = seq.iter().filter(|x| x.1.is_ok()).count();
+    // the same seeds on a brand-new OS thread: hidden per-thread state (caches, thread-locals)
+    // must not change a result
+    {
+        let mn = case.mn.clone();
+        let (start, tries) = (case.start, case.tries);
+        let fresh: Vec<Result<SparseMatrix, String>> = std::thread::spawn(move || (start..start + tries).map(|s| mn.run(s).map_err(|e| e.to_string())).collect())
+            .join()
+            .unwrap_or_default();
+        for ((s, r), f) in seq.iter().zip(fresh.iter()) {
+            stats.inc("construction repeated on a fresh OS thread");
+            if r != f {
+                v.push(Violation::new("not-reproducible", format!("{:?} seed {} gives a different result on a fresh thread than on a thread that has run other constructions before", case.mn, s)));
+            }
+        }
+    }
     for (s, r) in &seq {
         if let Ok(h) = r {
             stats.inc("matrices checked (MacKay-Neal)");
